@@ -93,7 +93,7 @@ def parse_rfc3339_datetime(rfc3339):
     if "." not in date:
         date = date + ".0"
     raw_datetime = datetime.strptime(date, "%Y-%m-%dT%H:%M:%S.%f")
-    delta = timedelta(hours=int(offset[-5:-3]), minutes=int(offset[-2]))
+    delta = timedelta(hours=int(offset[-5:-3]), minutes=int(offset[-2:]))
     if offset[0] == "-":
         delta = -delta
     return raw_datetime.replace(tzinfo=timezone(delta))
